@@ -110,6 +110,21 @@ add_inh("date", "date(date_length: short)", ("Short",), "date(date_length: long)
 add_inh("list", "list(list_type: and)", ("And", "Wide"), "list(list_type: or)", ("Or", "Wide"))
 add_inh("cur", "currency(width: short; currency_code: USD)", ("Short", "USD"), "currency(width: narrow; currency_code: EUR)", ("Narrow", "EUR"))
 
+# ---- the same argument written twice with two *recognised* values: which one counts is not documented, but a translation
+# file and the `t*_format!` macros read the same grammar, so both must make the same choice (and it must be one of the two)
+N_BEFORE_DUP = len(keys)
+DUPS = []  # (kind, text, expected if the first occurrence counts, expected if the last one counts)
+def add_dup(kind, text, first, last):
+    add(kind, text, first)
+    DUPS.append((kind, text, first, last, len(keys) - 1))
+add_dup("date", "date(date_length: short; date_length: full)", ("Short",), ("Full",))
+add_dup("dt", "datetime(date_length: medium; time_length: short; date_length: long; time_length: medium)", ("Medium", "Short"), ("Long", "Medium"))
+add_dup("list", "list(list_type: or; list_type: and)", ("Or", "Wide"), ("And", "Wide"))
+add_dup("list", "list(list_style: short; list_type: and; list_style: narrow)", ("And", "Short"), ("And", "Narrow"))
+add_dup("num", "number(grouping_strategy: never; grouping_strategy: always)", ("Never",), ("Always",))
+add_dup("cur", "currency(currency_code: USD; width: short; currency_code: EUR)", ("Short", "USD"), ("Short", "EUR"))
+add_dup("time", "time(time_length: short; time_length: medium)", ("Short",), ("Medium",))
+
 FORMS = ["zero", "one", "two", "few", "many", "other"]
 
 # (rust literal, its decimal expansion written by hand)
@@ -158,11 +173,11 @@ out.append("use crate::fixture::{Cw, Gs, Len, Ls, Lt, Spec, Val};")
 out.append("use crate::i18n::*;")
 out.append("use leptos_i18n::formatting::*;")
 out.append("")
-out.append("pub struct KeySpec { pub name: &'static str, pub text: &'static str, pub spec: Spec, pub only_in_default: bool, pub es_spec: Option<Spec> }")
+out.append("pub struct KeySpec { pub name: &'static str, pub text: &'static str, pub spec: Spec, pub only_in_default: bool, pub es_spec: Option<Spec>, pub dup: bool }")
 out.append("")
 out.append("pub const KEYS: &[KeySpec] = &[")
 for i, (name, text, kind, exp) in enumerate(keys):
-    out.append(f"    KeySpec {{ name: {json.dumps(name)}, text: {json.dumps(text, ensure_ascii=False)}, spec: {spec(kind, exp)}, only_in_default: {'true' if i >= N_DECLARED_EVERYWHERE else 'false'}, es_spec: {('Some(' + spec(kind, INHERITED_ES[i][1]) + ')') if i in INHERITED_ES else 'None'} }},")
+    out.append(f"    KeySpec {{ name: {json.dumps(name)}, text: {json.dumps(text, ensure_ascii=False)}, spec: {spec(kind, exp)}, only_in_default: {'true' if i >= N_DECLARED_EVERYWHERE else 'false'}, es_spec: {('Some(' + spec(kind, INHERITED_ES[i][1]) + ')') if i in INHERITED_ES else 'None'}, dup: {'true' if i >= N_BEFORE_DUP else 'false'} }},")
 out.append("];")
 out.append("")
 out.append("/// route 1: `td_string!` on a fixture key (parser -> macro -> format_*_to_formatter)")
@@ -194,11 +209,22 @@ site("date", "date", ("Medium",)); site("date", "date(date_length: full)", ("Ful
 site("time", "time", ("Short",)); site("time", "time(time_length: medium)", ("Medium",))
 site("dt", "datetime", ("Medium", "Short")); site("dt", "datetime(date_length: long; time_length: medium)", ("Long", "Medium")); site("dt", "datetime(time_length: medium)", ("Medium", "Medium"))
 site("list", "list", ("Unit", "Wide")); site("list", "list(list_type: and)", ("And", "Wide")); site("list", "list(list_type: or; list_style: short)", ("Or", "Short")); site("list", "list(list_style: narrow)", ("Unit", "Narrow"))
-out.append("pub struct SiteSpec { pub text: &'static str, pub spec: Spec }")
+N_SITES_BEFORE_DUP = len(sites)
+for kind, text, first, last, key_index in DUPS:
+    site(kind, text, first)
+out.append("pub struct SiteSpec { pub text: &'static str, pub spec: Spec, pub dup: bool }")
+out.append("")
+out.append("/// a formatter text with a repeated argument: (key index, call-site index, options if the first occurrence counts, options if the last one counts)")
+out.append("pub struct DupSpec { pub key: usize, pub site: usize, pub first: Spec, pub last: Spec }")
+out.append("")
+out.append("pub const DUPS: &[DupSpec] = &[")
+for j, (kind, text, first, last, key_index) in enumerate(DUPS):
+    out.append(f"    DupSpec {{ key: {key_index}, site: {N_SITES_BEFORE_DUP + j}, first: {spec(kind, first)}, last: {spec(kind, last)} }},")
+out.append("];")
 out.append("")
 out.append("pub const SITES: &[SiteSpec] = &[")
-for kind, fmt, exp in sites:
-    out.append(f"    SiteSpec {{ text: {json.dumps(fmt)}, spec: {spec(kind, exp)} }},")
+for j, (kind, fmt, exp) in enumerate(sites):
+    out.append(f"    SiteSpec {{ text: {json.dumps(fmt)}, spec: {spec(kind, exp)}, dup: {'true' if j >= N_SITES_BEFORE_DUP else 'false'} }},")
 out.append("];")
 out.append("")
 out.append("/// route 2: `td_format_string!` call sites (macro -> format_*_to_display)")
